@@ -10,6 +10,8 @@ Decided:
               frame only behind both gates (as C05.gate); a write error aborts the frame with an error (no success
               after a failed write)
   C14.count   the sample counter update and seek point bookkeeping do not write to the stream
+  C14.len     a frame is emitted only after the declared-length check passed (an over-long write leaves no complete frame
+              beyond the declared total)
 Not decided: what the decoder returns for a given prefix (value-level).
 """
 from rules.common import *
